@@ -5,7 +5,7 @@ base environment, then inject / import from it with slices, units and later modi
 the rendered text.  Expected nodes come from the reference interpreter; recorded defects are recognised by running the
 same interpreter with the mechanism of the defect switched on ("buggy twin") and demanding an exact match.
 """
-import os, re, tempfile, shutil, itertools, copy
+import os, re, json, tempfile, shutil, itertools, copy
 from vt.core import outcome, dev
 from vt.util import close, exc_sig, plain
 from vt.refmodel import dip_ref_c17 as R
@@ -146,6 +146,17 @@ def same_value(a, b):
     return close(a, b, 1e-9)
 
 
+def numify(x):
+    if isinstance(x, list):
+        return [numify(y) for y in x]
+    if isinstance(x, bool) or isinstance(x, str):
+        return x
+    try:
+        return float(x)
+    except Exception:
+        return x
+
+
 def diff_nodes(real_nodes, menv):
     """-> list of (mechanism, detail) differences between observed nodes (without unreadable import entries) and model"""
     out = []
@@ -191,7 +202,19 @@ def matches(obs, model, soft=False):
         if f.sigs is None:
             return True
         sig = type(obs[1]).__name__ + ': ' + ' '.join(str(a) for a in obs[1].args[:1])
-        return any(s in sig for s in f.sigs)
+        if not any(s in sig for s in f.sigs):
+            return False
+        if f.payload is not None and len(obs[1].args) >= 3 and obs[1].args[0] == 'Could not convert raw value to type:':
+            line = obs[1].args[1]
+            if f.who and isinstance(line, str) and line.split() and line.split()[0] != f.who.split('.')[-1]:
+                return False
+            seen = obs[1].args[2]
+            try:
+                seen = json.loads(seen) if isinstance(seen, str) else plain(seen)
+            except Exception:
+                return True
+            return same_value(numify(seen), numify(f.payload))
+        return True
     if obs[0] != 'ok':
         return False
     good, bad = split_unreadable(obs[1])
